@@ -3,10 +3,12 @@ import EaselModel.Dist.GumbelThm
 import EaselModel.Dist.WeiThm
 import EaselModel.Dist.GevThm
 import EaselModel.Dist.SpecialFamThm
-import EaselModel.Dist.MixThm
+import EaselModel.Dist.MixGen
+import EaselModel.Dist.MixLogGen
 import EaselModel.Dist.IntegralThm
-import EaselModel.Dist.MixLogThm
 import EaselModel.Dist.BisectThm
+import EaselModel.Dist.BisectTerm
+import EaselModel.Dist.BisectGen
 import EaselModel.Dist.Edge
 /-! # C10 — each distribution's pdf, cdf, survival, log and inverse functions agree
 
@@ -264,35 +266,74 @@ theorem gam_sxp_outside_support {α : Type} [Add α] [Sub α] [Mul α] [Div α] 
     fun h => ⟨Edge.sxp_cdf_below h, Edge.sxp_surv_below h, Edge.sxp_logcdf_below h, Edge.sxp_logsurv_below h⟩,
     fun h => ⟨Edge.lognormal_pdf_zero h, Edge.lognormal_logpdf_zero h⟩⟩
 
-/-! ## Mixtures (hand model `Dist/Mix.lean` of the `esl_hxp_*` / `esl_mixgev_*` loops over the translated components) -/
+/-! ## Mixtures (`esl_hxp_*`, `esl_mixgev_*`, TRANSLATED since round 3: counted loops = finite sums over the components)
 
-/-- hyperexponential: for non-negative coefficients `q_k` and rates `λ_k`, cdf + surv is the coefficient sum (1 for a
-    normalised mixture) within `2.5e-17` of it — convex combinations inherit the component law.
-    `_partial`: monotonicity, the log versions through `esl_vec_DLogSum`, the bisection inverse, and all of `esl_mixgev_*`
-    are covered by the bit-exact run and the L0 monitors only. -/
-theorem hxp_cdf_add_surv_partial (x mu : ℝ) (qs : List (ℝ × ℝ)) (hq : ∀ qp ∈ qs, 0 ≤ qp.1 ∧ 0 ≤ qp.2) :
-    (x < mu → Mix.hxp_cdf x mu qs + Mix.hxp_surv x mu qs = 1) ∧
-      (mu ≤ x → |Mix.hxp_cdf x mu qs + Mix.hxp_surv x mu qs - (qs.map Prod.fst).sum| ≤ 2.5e-17 * (qs.map Prod.fst).sum) :=
-  MixThm.hxp_cdf_add_surv x mu qs hq
+`MixGen.hxpCdf h x = Σ_{k<K} q_k · expCdf μ λ_k x` etc. are the textbook mixtures; `HxpOK` / `MixgevOK` say: coefficients
+`≥ 0`, rates/scales `> 0` (GEV shapes `≠ 0`) for the `K` components in use.  `hxpQ` / `mixgevQ` is `Σ q_k` (1 when
+normalised; the code never normalises). -/
 
-example : |Mix.hxp_cdf (1 : ℝ) 0 [(0.25, 1), (0.75, 2)] + Mix.hxp_surv (1 : ℝ) 0 [(0.25, 1), (0.75, 2)] -
-    ([(0.25, 1), (0.75, 2)].map Prod.fst).sum| ≤ 2.5e-17 * ([((0.25 : ℝ), (1 : ℝ)), (0.75, 2)].map Prod.fst).sum :=
-  (hxp_cdf_add_surv_partial 1 0 _ (by intro qp h; simp at h; rcases h with h | h <;> subst h <;> norm_num)).2 (by norm_num)
+/-- hyperexponential, L2 + L1: the textbook mixture cdf is non-decreasing from `0` (below `μ`) to `Σq`, cdf + surv = `Σq`;
+    the translated code's cdf is within `2.5e-17·Σq` of it for every argument, survival and density are exact, the
+    code's own cdf + surv is within `2.5e-17·Σq` of `Σq` (exactly 1 below `μ`), and `cdf μ = 0`. -/
+theorem hxp_mixture_laws {h : ESL_HYPEREXP ℝ} (ok : MixGen.HxpOK h) :
+    (Monotone (MixGen.hxpCdf h) ∧ (∀ x, x < h.mu → MixGen.hxpCdf h x = 0) ∧
+      (∀ x, 0 ≤ MixGen.hxpCdf h x ∧ MixGen.hxpCdf h x ≤ MixGen.hxpQ h) ∧
+      Filter.Tendsto (MixGen.hxpCdf h) Filter.atTop (nhds (MixGen.hxpQ h)) ∧
+      (∀ x, MixGen.hxpCdf h x + MixGen.hxpSurv h x = MixGen.hxpQ h)) ∧
+    (∀ x, |esl_hxp_cdf x h - MixGen.hxpCdf h x| ≤ 2.5e-17 * MixGen.hxpQ h ∧
+      esl_hxp_surv x h = (if x < h.mu then 1 else MixGen.hxpSurv h x) ∧ esl_hxp_pdf x h = MixGen.hxpPdf h x) ∧
+    (∀ x, (x < h.mu → esl_hxp_cdf x h + esl_hxp_surv x h = 1) ∧
+      (h.mu ≤ x → |esl_hxp_cdf x h + esl_hxp_surv x h - MixGen.hxpQ h| ≤ 2.5e-17 * MixGen.hxpQ h)) ∧
+    esl_hxp_cdf h.mu h = 0 :=
+  ⟨MixGen.hxp_textbook_laws ok, MixGen.hxp_code_eq_textbook ok, MixGen.hxp_cdf_add_surv ok, MixGen.hxp_cdf_at_mu h⟩
 
-/-- mixture log versions: `esl_vec_DLogSum` (hand model) IS `log Σ exp v_i` whenever all entries lie in its 500-window
-    below the maximum (what it drops otherwise is below `e^{-500}` of the largest term), and with positive coefficients
-    `esl_hxp_logsurv = log esl_hxp_surv` exactly on `x ≥ μ`.
-    `_partial`: `logcdf`/`logpdf` of the hyperexponential inherit the components' `1e-8` bounds (not chained here), the
-    out-of-window remainder bound and the GEV mixture are monitored only. -/
+/-- a two-component hyperexponential satisfying `HxpOK` -/
+example : MixGen.HxpOK ({ mu := 0, K := 2, q := [0.25, 0.75], lambda := [1, 2], wrk := [0, 0] } : ESL_HYPEREXP ℝ) := by
+  intro k hk
+  have : k = 0 ∨ k = 1 := by simp only at hk; omega
+  rcases this with rfl | rfl <;> simp [MixGen.hq, MixGen.hl] <;> norm_num
+
+/-- mixture of GEVs: the textbook mixture cdf is non-decreasing within `[0, Σq]`, cdf + surv = `Σq`; at every `x` outside
+    the components' `|α y| < 1e-12` Gumbel slivers the translated cdf and density ARE the textbook mixture, the
+    survival is within `2.3e-16·Σq` of it and cdf + surv within `2.3e-16·Σq` of `Σq`. -/
+theorem mixgev_mixture_laws {g : ESL_MIXGEV ℝ} (ok : MixGen.MixgevOK g) :
+    (Monotone (MixGen.mixgevCdf g) ∧ (∀ x, 0 ≤ MixGen.mixgevCdf g x ∧ MixGen.mixgevCdf g x ≤ MixGen.mixgevQ g) ∧
+      (∀ x, MixGen.mixgevCdf g x + MixGen.mixgevSurv g x = MixGen.mixgevQ g)) ∧
+    (∀ x, MixGen.GevBranch g x → esl_mixgev_cdf x g = MixGen.mixgevCdf g x ∧ esl_mixgev_pdf x g = MixGen.mixgevPdf g x ∧
+      |esl_mixgev_surv x g - MixGen.mixgevSurv g x| ≤ 2.3e-16 * MixGen.mixgevQ g ∧
+      |esl_mixgev_cdf x g + esl_mixgev_surv x g - MixGen.mixgevQ g| ≤ 2.3e-16 * MixGen.mixgevQ g) :=
+  ⟨MixGen.mixgev_textbook_laws ok, fun _ hb => MixGen.mixgev_code_eq_textbook ok hb⟩
+
+/-- `esl_vec_DMax` / `esl_vec_DMin` (translated) return an entry of `vec[0..n-1]` that bounds all of them — so the left
+    bracket of `esl_mixgev_invcdf` starts at the smallest component location. -/
+theorem vec_extremes (vec : List ℝ) {n : ℕ} (hn : 1 ≤ n) :
+    ((∀ i < n, vec.getD i 0 ≤ esl_vec_DMax vec n) ∧ ∃ i < n, esl_vec_DMax vec n = vec.getD i 0) ∧
+    ((∀ i < n, esl_vec_DMin vec n ≤ vec.getD i 0) ∧ ∃ i < n, esl_vec_DMin vec n = vec.getD i 0) :=
+  MixGen.vec_dmax_dmin vec hn
+
+/-- mixture log versions: the translated `esl_vec_DLogSum` IS `log Σ exp v_i` whenever all entries lie in its 500-window
+    below the maximum (what it drops otherwise is below `e^{-500}` of the largest term); and for positive coefficients
+    whose stored log-terms `log q_k + log f_k(x)` lie within 500 of each other, `esl_hxp_logsurv = log esl_hxp_surv` and
+    `esl_hxp_logpdf = log esl_hxp_pdf` exactly on `x ≥ μ` (through the loop that fills `h->wrk`).
+    `_partial`: `esl_hxp_logcdf` inherits the components' `1e-8` bound (not chained here); the out-of-window remainder and
+    the log versions of the GEV mixture are monitored only. -/
 theorem mixture_log_versions_partial :
-    (∀ vec : List ℝ, vec ≠ [] → Mix.dmax vec ≠ (Num.inf : ℝ) → (∀ v ∈ vec, Mix.dmax vec - 500 < v) →
-      Mix.dlogsum vec = log ((vec.map exp).sum)) ∧
-    (∀ (x mu : ℝ) (qs : List (ℝ × ℝ)), mu ≤ x → qs ≠ [] → (∀ qp ∈ qs, 0 < qp.1) →
-      Mix.dmax (qs.map fun qp => log qp.1 + esl_exp_logsurv x mu qp.2) ≠ (Num.inf : ℝ) →
-      (∀ v ∈ (qs.map fun qp => log qp.1 + esl_exp_logsurv x mu qp.2),
-        Mix.dmax (qs.map fun qp => log qp.1 + esl_exp_logsurv x mu qp.2) - 500 < v) →
-      Mix.hxp_logsurv x mu qs = log (Mix.hxp_surv x mu qs)) :=
-  ⟨MixLogThm.dlogsum_eq, fun _ _ qs hx hne hq hfin hwin => MixLogThm.hxp_logsurv_eq hx qs hne hq hfin hwin⟩
+    (∀ (vec : List ℝ) (n : ℕ), 1 ≤ n → esl_vec_DMax vec n ≠ (Num.inf : ℝ) → (∀ i < n, esl_vec_DMax vec n - 500 < vec.getD i 0) →
+      esl_vec_DLogSum vec n = log (∑ i ∈ Finset.range n, exp (vec.getD i 0))) ∧
+    (∀ (h : ESL_HYPEREXP ℝ) (x : ℝ), h.mu ≤ x → 1 ≤ h.K → h.K ≤ h.wrk.length → (∀ k < h.K, 0 < MixGen.hq h k) →
+      (∀ k < h.K, MixLogGen.entry h (fun l => esl_exp_logsurv x h.mu l) k ≠ (Num.inf : ℝ)) →
+      (∀ i < h.K, ∀ j < h.K, MixLogGen.entry h (fun l => esl_exp_logsurv x h.mu l) j - 500 <
+        MixLogGen.entry h (fun l => esl_exp_logsurv x h.mu l) i) →
+      esl_hxp_logsurv x h = log (esl_hxp_surv x h)) ∧
+    (∀ (h : ESL_HYPEREXP ℝ) (x : ℝ), h.mu ≤ x → 1 ≤ h.K → h.K ≤ h.wrk.length →
+      (∀ k < h.K, 0 < MixGen.hq h k ∧ 0 < MixGen.hl h k ∧ MixGen.hl h k ≠ (Num.inf : ℝ)) →
+      (∀ k < h.K, MixLogGen.entry h (fun l => esl_exp_logpdf x h.mu l) k ≠ (Num.inf : ℝ)) →
+      (∀ i < h.K, ∀ j < h.K, MixLogGen.entry h (fun l => esl_exp_logpdf x h.mu l) j - 500 <
+        MixLogGen.entry h (fun l => esl_exp_logpdf x h.mu l) i) →
+      esl_hxp_logpdf x h = log (esl_hxp_pdf x h)) :=
+  ⟨fun vec _ hn hfin hwin => MixGen.vec_dlogsum vec hn hfin hwin,
+    fun _ _ hx hK hw hpos hfin hwin => MixLogGen.hxp_logsurv_eq hx hK hw hpos hfin hwin,
+    fun _ _ hx hK hw hpos hfin hwin => MixLogGen.hxp_logpdf_eq hx hK hw hpos hfin hwin⟩
 
 /-! ## Gumbel-vs-GEV distance inside the Gumbel branch -/
 
@@ -310,36 +351,148 @@ example : |esl_gev_logcdf (2 : ℝ) 0 1 1e-13 - log (gevCdf 0 1 1e-13 2)| ≤ 4e
 
 /-! ## Bracketing + bisection inverses (`esl_sxp_invcdf`, `esl_gam_invcdf`, `esl_hxp_invcdf`, `esl_mixgev_invcdf`)
 
-Hand model `Dist/Bisect.lean` (each `do … while` recursing on fuel; executed bit-for-bit against the C functions).
-Whatever the loops do, a returned value `r` lies inside a bracket `[a, b]` with `cdf a ≤ p ≤ cdf b`; for a monotone cdf
-this squeezes `cdf r` between two cdf values that bracket `p`.  Termination is not claimed (`none` = fuel exhausted);
-that the final bracket is narrow (relative width `1e-6`) is checked by the L0 monitors. -/
+Since round 3 the four functions are TRANSLATED from the working tree on every run (each `do … while` becomes a helper
+recursing on a fuel argument, `none` = fuel exhausted = the C loop would still be running; the driver executes these
+generated functions against the C code).  `bisection_inverses_generated` identifies them, for every carrier, with the
+generic loops of `Dist/Bisect.lean`; the theorems below are proved once on the generic loops (`BisectThm`, `BisectTerm`)
+and stated on the generated functions. -/
 
-theorem bisection_inverses_bracket {p μ l τ r : ℝ} (hp : 0 ≤ p) :
-    (Bisect.invcdfRight (fun x => esl_sxp_cdf x μ l τ) p μ = some r →
+/-- the translated inverses ARE the generic bracketing + bisection at their own (translated) cdf -/
+theorem bisection_inverses_generated {α : Type} [Add α] [Sub α] [Mul α] [Div α] [Neg α] [OfScientific α] [LT α] [LE α]
+    [DecidableLT α] [DecidableLE α] [Num α] (fuel : Nat) (p mu l t : α) (h : ESL_HYPEREXP α) (mg : ESL_MIXGEV α) :
+    esl_sxp_invcdf fuel p mu l t = Bisect.invcdfRight fuel (fun x => esl_sxp_cdf x mu l t) p mu ∧
+    esl_gam_invcdf fuel p mu l t = Bisect.invcdfGam fuel (fun x => esl_gam_cdf x mu l t) p mu l t ∧
+    esl_hxp_invcdf fuel p h = Bisect.invcdfRight fuel (fun x => esl_hxp_cdf x h) p h.mu ∧
+    esl_mixgev_invcdf fuel p mg = Bisect.invcdfMix fuel (fun x => esl_mixgev_cdf x mg) p (esl_vec_DMin mg.mu mg.K) :=
+  ⟨BisectGen.sxp_invcdf fuel p mu l t, BisectGen.gam_invcdf fuel p mu l t, BisectGen.hxp_invcdf fuel p h,
+    BisectGen.mixgev_invcdf fuel p mg⟩
+
+/-- Bracket invariant: whatever the cdf does, a returned value `r` lies inside a bracket `[a, b]` with
+    `cdf a ≤ p ≤ cdf b` (right of `μ` for the one-sided families) — every iteration keeps `cdf x1 ≤ p ≤ cdf x2`. -/
+theorem bisection_inverses_bracket {p μ l τ r : ℝ} (hp : 0 ≤ p) (fuel : Nat) :
+    (esl_sxp_invcdf fuel p μ l τ = some r →
       ∃ a b, μ ≤ a ∧ a ≤ r ∧ r ≤ b ∧ esl_sxp_cdf a μ l τ ≤ p ∧ p ≤ esl_sxp_cdf b μ l τ) ∧
-    (0 ≤ τ / l → Bisect.invcdfGam (fun x => esl_gam_cdf x μ l τ) p μ l τ = some r →
+    (0 ≤ τ / l → esl_gam_invcdf fuel p μ l τ = some r →
       ∃ a b, μ ≤ a ∧ a ≤ r ∧ r ≤ b ∧ esl_gam_cdf a μ l τ ≤ p ∧ p ≤ esl_gam_cdf b μ l τ) ∧
-    (∀ qs : List (ℝ × ℝ), Mix.hxp_cdf μ μ qs ≤ p → Bisect.invcdfRight (fun x => Mix.hxp_cdf x μ qs) p μ = some r →
-      ∃ a b, μ ≤ a ∧ a ≤ r ∧ r ≤ b ∧ Mix.hxp_cdf a μ qs ≤ p ∧ p ≤ Mix.hxp_cdf b μ qs) ∧
-    (∀ (qs : List (ℝ × ℝ × ℝ × ℝ)) (m : ℝ), Bisect.invcdfMix (fun x => Mix.mixgev_cdf x qs) p m = some r →
-      ∃ a b, a ≤ r ∧ r ≤ b ∧ Mix.mixgev_cdf a qs ≤ p ∧ p ≤ Mix.mixgev_cdf b qs) :=
+    (∀ h : ESL_HYPEREXP ℝ, esl_hxp_invcdf fuel p h = some r →
+      ∃ a b, h.mu ≤ a ∧ a ≤ r ∧ r ≤ b ∧ esl_hxp_cdf a h ≤ p ∧ p ≤ esl_hxp_cdf b h) ∧
+    (∀ mg : ESL_MIXGEV ℝ, esl_mixgev_invcdf fuel p mg = some r →
+      ∃ a b, a ≤ r ∧ r ≤ b ∧ esl_mixgev_cdf a mg ≤ p ∧ p ≤ esl_mixgev_cdf b mg) :=
   ⟨fun h => BisectThm.invcdfRight_brackets (cdf := fun x => esl_sxp_cdf x μ l τ)
-      (by show esl_sxp_cdf μ μ l τ ≤ p; rw [Edge.sxp_cdf_below (le_refl μ)]; simpa using hp) h,
+      (by show esl_sxp_cdf μ μ l τ ≤ p; rw [Edge.sxp_cdf_below (le_refl μ)]; simpa using hp) (BisectGen.sxp_invcdf fuel p μ l τ ▸ h),
     fun hlt h => BisectThm.invcdfGam_brackets (cdf := fun x => esl_gam_cdf x μ l τ)
-      (by show esl_gam_cdf μ μ l τ ≤ p; rw [Edge.gam_cdf_below (by simp)]; simpa using hp) hlt h,
-    fun qs h0 h => BisectThm.invcdfRight_brackets (cdf := fun x => Mix.hxp_cdf x μ qs) h0 h,
-    fun qs m h => BisectThm.invcdfMix_brackets (cdf := fun x => Mix.mixgev_cdf x qs) h⟩
+      (by show esl_gam_cdf μ μ l τ ≤ p; rw [Edge.gam_cdf_below (by simp)]; simpa using hp) hlt (BisectGen.gam_invcdf fuel p μ l τ ▸ h),
+    fun hx h => BisectThm.invcdfRight_brackets (cdf := fun x => esl_hxp_cdf x hx)
+      (by show esl_hxp_cdf hx.mu hx ≤ p; rw [MixGen.hxp_cdf_at_mu]; exact hp) (BisectGen.hxp_invcdf fuel p hx ▸ h),
+    fun mg h => BisectThm.invcdfMix_brackets (cdf := fun x => esl_mixgev_cdf x mg) (BisectGen.mixgev_invcdf fuel p mg ▸ h)⟩
+
+/-- Accuracy on exit: the returned `r` is the midpoint of a final bracket no wider than the stop rule, so the point `q`
+    where the cdf crosses `p` (`cdf < p` left of it, `> p` right of it — no monotonicity needed beyond that) satisfies
+    `|r − q| ≤ 1e-6 · (r − μ)` (six digits of the offset from `μ`) for `sxp`, `gam`, `hxp`, and
+    `|r − q| ≤ 1.01e-6 · (|r| + 1e-9)` for `mixgev`. -/
+theorem bisection_inverses_accuracy {p μ l τ r q : ℝ} (hp : 0 ≤ p) (fuel : Nat) :
+    (esl_sxp_invcdf fuel p μ l τ = some r → (∀ x, x < q → esl_sxp_cdf x μ l τ < p) → (∀ x, q < x → p < esl_sxp_cdf x μ l τ) →
+      |r - q| ≤ 1e-6 * (r - μ)) ∧
+    (0 ≤ τ / l → esl_gam_invcdf fuel p μ l τ = some r → (∀ x, x < q → esl_gam_cdf x μ l τ < p) →
+      (∀ x, q < x → p < esl_gam_cdf x μ l τ) → |r - q| ≤ 1e-6 * (r - μ)) ∧
+    (∀ h : ESL_HYPEREXP ℝ, esl_hxp_invcdf fuel p h = some r → (∀ x, x < q → esl_hxp_cdf x h < p) →
+      (∀ x, q < x → p < esl_hxp_cdf x h) → |r - q| ≤ 1e-6 * (r - h.mu)) ∧
+    (∀ mg : ESL_MIXGEV ℝ, esl_mixgev_invcdf fuel p mg = some r → (∀ x, x < q → esl_mixgev_cdf x mg < p) →
+      (∀ x, q < x → p < esl_mixgev_cdf x mg) → |r - q| ≤ 1.01e-6 * (|r| + 1e-9)) :=
+  ⟨fun h hlo hhi => by
+      obtain ⟨x2, hf⟩ := BisectTerm.invcdfRight_final (cdf := fun x => esl_sxp_cdf x μ l τ)
+        (by show esl_sxp_cdf μ μ l τ ≤ p; rw [Edge.sxp_cdf_below (le_refl μ)]; simpa using hp) (BisectGen.sxp_invcdf fuel p μ l τ ▸ h)
+      exact BisectTerm.final_accuracy hf hlo hhi,
+    fun hlt h hlo hhi => by
+      obtain ⟨x2, hf⟩ := BisectTerm.invcdfGam_final (cdf := fun x => esl_gam_cdf x μ l τ)
+        (by show esl_gam_cdf μ μ l τ ≤ p; rw [Edge.gam_cdf_below (by simp)]; simpa using hp) hlt (BisectGen.gam_invcdf fuel p μ l τ ▸ h)
+      exact BisectTerm.final_accuracy hf hlo hhi,
+    fun hx h hlo hhi => by
+      obtain ⟨x2, hf⟩ := BisectTerm.invcdfRight_final (cdf := fun x => esl_hxp_cdf x hx)
+        (by show esl_hxp_cdf hx.mu hx ≤ p; rw [MixGen.hxp_cdf_at_mu]; exact hp) (BisectGen.hxp_invcdf fuel p hx ▸ h)
+      exact BisectTerm.final_accuracy hf hlo hhi,
+    fun mg h hlo hhi => by
+      obtain ⟨x1, x2, hf⟩ := BisectTerm.invcdfMix_final (cdf := fun x => esl_mixgev_cdf x mg) (BisectGen.mixgev_invcdf fuel p mg ▸ h)
+      exact BisectTerm.finalMix_accuracy hf hlo hhi⟩
+
+/-- Termination with an explicit iteration bound (the defect class of 7f8f7fd / 3a05169: three of these loops never
+    returned).  For `sxp`/`gam`/`hxp`: if the cdf is still below `p` on `[μ, μ+δ]` and at least `p` from `X` on, every
+    loop returns within `fuel` iterations once `fuel > N1, N2`, `3^(N1+1)` (gamma: `2^(N1+1)·τ/λ`) reaches `X − μ` and
+    `2^N2 ≥ reach / (1e-6 δ)`.  **Without the first hypothesis (`p = 0`, or `p` attained at `μ`) the real-number bisection
+    never stops** — the stop rule is relative to `x1 + x2 − 2μ` — and the C code then relies on its binary64
+    no-progress `break`.  For `mixgev` (absolute floor `1e-15` in the stop rule) only the two bracketing points are needed.
+    In binary64 `δ ≥ 2^-1074`, reach `≤ 2^1024`: `fuel = 5000` (the driver's) covers every input. -/
+theorem bisection_inverses_terminate {p μ l τ δ X : ℝ} {N1 N2 fuel : Nat} (hδ : 0 < δ) (hf1 : N1 + 1 ≤ fuel) (hf2 : N2 + 1 ≤ fuel) :
+    ((∀ x, x ≤ μ + δ → esl_sxp_cdf x μ l τ < p) → (∀ x, X ≤ x → p ≤ esl_sxp_cdf x μ l τ) → X ≤ μ + 3 ^ (N1 + 1) →
+      (3 : ℝ) ^ (N1 + 1) ≤ 1e-6 * δ * 2 ^ N2 → (esl_sxp_invcdf fuel p μ l τ).isSome) ∧
+    (0 ≤ τ / l → (∀ x, x ≤ μ + δ → esl_gam_cdf x μ l τ < p) → (∀ x, X ≤ x → p ≤ esl_gam_cdf x μ l τ) →
+      X ≤ μ + 2 ^ (N1 + 1) * (τ / l) → (2 : ℝ) ^ (N1 + 1) * (τ / l) ≤ 1e-6 * δ * 2 ^ N2 → (esl_gam_invcdf fuel p μ l τ).isSome) ∧
+    (∀ h : ESL_HYPEREXP ℝ, (∀ x, x ≤ h.mu + δ → esl_hxp_cdf x h < p) → (∀ x, X ≤ x → p ≤ esl_hxp_cdf x h) →
+      X ≤ h.mu + 3 ^ (N1 + 1) → (3 : ℝ) ^ (N1 + 1) ≤ 1e-6 * δ * 2 ^ N2 → (esl_hxp_invcdf fuel p h).isSome) ∧
+    (∀ (mg : ESL_MIXGEV ℝ) (XL : ℝ) (N0 : Nat), N0 + 1 ≤ fuel → (∀ x, x ≤ XL → esl_mixgev_cdf x mg ≤ p) →
+      (∀ x, X ≤ x → p ≤ esl_mixgev_cdf x mg) → esl_vec_DMin mg.mu mg.K - 3 ^ (N0 + 1) ≤ XL →
+      X ≤ esl_vec_DMin mg.mu mg.K + 3 ^ (N1 + 1) - 1 → (3 : ℝ) ^ (N1 + 1) * 3 ^ (N0 + 1) ≤ 1e-15 * 2 ^ N2 →
+      (esl_mixgev_invcdf fuel p mg).isSome) :=
+  ⟨fun hlow hX h1 h2 => BisectGen.sxp_invcdf fuel p μ l τ ▸ BisectTerm.invcdfRight_terminates hδ hlow hX h1 h2 hf1 hf2,
+    fun hlt hlow hX h1 h2 => BisectGen.gam_invcdf fuel p μ l τ ▸ BisectTerm.invcdfGam_terminates hδ hlt hlow hX h1 h2 hf1 hf2,
+    fun hx hlow hX h1 h2 => BisectGen.hxp_invcdf fuel p hx ▸ BisectTerm.invcdfRight_terminates hδ hlow hX h1 h2 hf1 hf2,
+    fun mg XL N0 hf0 hL hR h0 h1 h2 => BisectGen.mixgev_invcdf fuel p mg ▸ BisectTerm.invcdfMix_terminates hL hR h0 h1 h2 hf0 hf1 hf2⟩
+
+/-- The generic loops on a genuine cdf (uniform on `[0,1]`, `μ = 0`, `p = 1/2`): the hypotheses of the termination and
+    accuracy theorems are satisfiable, 25 iterations per loop suffice, and the result is within `1e-6 · r` of `1/2`. -/
+example : (Bisect.invcdfRight 25 (fun x : ℝ => max 0 (min x 1)) (1 / 2) 0).isSome :=
+  BisectTerm.invcdfRight_terminates (δ := 1 / 4) (X := 1 / 2) (N1 := 0) (N2 := 24) (by norm_num)
+    (fun x hx => max_lt (by norm_num) (lt_of_le_of_lt (min_le_left _ _) (by linarith)))
+    (fun x hx => le_max_of_le_right (le_min hx (by norm_num))) (by norm_num) (by norm_num) (by norm_num) (by norm_num)
+
+example {r : ℝ} (h : Bisect.invcdfRight 25 (fun x : ℝ => max 0 (min x 1)) (1 / 2) 0 = some r) : |r - 1 / 2| ≤ 1e-6 * (r - 0) := by
+  obtain ⟨x2, hf⟩ := BisectTerm.invcdfRight_final (cdf := fun x : ℝ => max 0 (min x 1)) (by norm_num) h
+  exact BisectTerm.final_accuracy hf (fun x hx => max_lt (by norm_num) (lt_of_le_of_lt (min_le_left _ _) hx))
+    (fun x hx => lt_max_of_lt_right (lt_min hx (by norm_num)))
+
+/-- …and the bisection over `ℝ` really does not stop when `p` is attained at the support edge: with `p = 0` on the
+    uniform cdf every iteration continues (the bracket `[0, x2]` keeps relative width 1), whatever the fuel. -/
+example : ∀ (n : Nat) (x2 : ℝ), 0 < x2 → x2 ≤ 1 → Bisect.bisect (fun x : ℝ => max 0 (min x 1)) 0 0 n 0 x2 = none := by
+  intro n
+  induction n with
+  | zero => intro x2 _ _; rfl
+  | succ n ih =>
+    intro x2 h0 h1
+    have hm : (0 : ℝ) < max 0 (min ((0 + x2) / 2) 1) := lt_max_of_lt_right (lt_min (by linarith) (by norm_num))
+    simp only [Bisect.bisect, BisectThm.lit_two, BisectTerm.lit_tol]
+    have e1 : (0 + x2) / 2 - 0 = x2 / 2 := by ring
+    have e2 : 0 + (0 + x2) / 2 - 2 * 0 = x2 / 2 := by ring
+    rw [if_neg (not_or.mpr ⟨not_le.mpr (by linarith), not_le.mpr (by linarith)⟩), if_pos hm, if_pos (by
+      rw [e1, e2, div_self (by linarith)]; norm_num)]
+    exact ih _ (by linarith) (by linarith)
 
 /-! ## The pdf integrates to cdf differences -/
 
-/-- Fundamental theorem of calculus on the proved derivatives: Gumbel for all `a b`; exponential inside the support.
-    `_partial`: stated for these two families only (Weibull and GEV have `HasDerivAt cdf pdf` on the open support, from
-    which the same follows on closed sub-intervals; gamma/sxp/normal rest on the unproved special functions). -/
-theorem pdf_integrates_to_cdf_differences_partial (μ l a b : ℝ) :
+/-- Fundamental theorem of calculus on the proved derivatives, for the four closed-form families and both mixtures:
+    `∫_a^b pdf = cdf b − cdf a` — Gumbel for all `a b`; exponential and Weibull for `μ < a ≤ b` (the Weibull density is
+    unbounded at `μ` when `τ < 1`, the exponential cdf has a kink at `μ`); GEV for `[a, b]` inside the support; the
+    hyperexponential for `μ < a ≤ b`; the GEV mixture inside every component's support.  (A non-negative derivative is
+    automatically integrable, so no separate integrability hypothesis is needed.)
+    Not covered: gamma / stretched exponential (their cdf is the hand-modelled incomplete-gamma *algorithm*, not an
+    integral) and the normal family unless `erfc` is interpreted (see `normal_laws_partial`). -/
+theorem pdf_integrates_to_cdf_differences (μ l τ α a b : ℝ) (hab : a ≤ b) :
     (∫ x in a..b, gumbelPdf μ l x = gumbelCdf μ l b - gumbelCdf μ l a) ∧
-      (μ < a → a ≤ b → ∫ x in a..b, expPdf μ l x = expCdf μ l b - expCdf μ l a) :=
-  ⟨IntegralThm.gumbel_integral_pdf μ l a b, IntegralThm.exp_integral_pdf⟩
+    (μ < a → ∫ x in a..b, expPdf μ l x = expCdf μ l b - expCdf μ l a) ∧
+    (0 < l → 0 ≤ τ → μ < a → ∫ x in a..b, weiPdf μ l τ x = weiCdf μ l τ b - weiCdf μ l τ a) ∧
+    (0 ≤ l → α ≠ 0 → 0 < gevArg μ l α a → 0 < gevArg μ l α b → ∫ x in a..b, gevPdf μ l α x = gevCdf μ l α b - gevCdf μ l α a) ∧
+    (∀ h : ESL_HYPEREXP ℝ, MixGen.HxpOK h → h.mu < a → ∫ x in a..b, MixGen.hxpPdf h x = MixGen.hxpCdf h b - MixGen.hxpCdf h a) ∧
+    (∀ g : ESL_MIXGEV ℝ, MixGen.MixgevOK g →
+      (∀ k < g.K, 0 < gevArg (MixGen.gm g k) (MixGen.gl g k) (MixGen.ga g k) a ∧ 0 < gevArg (MixGen.gm g k) (MixGen.gl g k) (MixGen.ga g k) b) →
+      ∫ x in a..b, MixGen.mixgevPdf g x = MixGen.mixgevCdf g b - MixGen.mixgevCdf g a) :=
+  ⟨IntegralThm.gumbel_integral_pdf μ l a b, fun ha => IntegralThm.exp_integral_pdf ha hab,
+    fun hl hτ ha => IntegralThm.wei_integral_pdf hl hτ ha hab, fun hl hα ha hb => IntegralThm.gev_integral_pdf hl hα hab ha hb,
+    fun _ ok ha => IntegralThm.hxp_integral_pdf ok ha hab, fun _ ok hs => IntegralThm.mixgev_integral_pdf ok hab hs⟩
+
+example : ∫ x in (1 : ℝ)..2, weiPdf 0 1 0.5 x = weiCdf 0 1 0.5 2 - weiCdf 0 1 0.5 1 :=
+  (pdf_integrates_to_cdf_differences 0 1 0.5 0 1 2 (by norm_num)).2.2.1 (by norm_num) (by norm_num) (by norm_num)
+example : ∫ x in (-1 : ℝ)..3, gevPdf 0 1 0.5 x = gevCdf 0 1 0.5 3 - gevCdf 0 1 0.5 (-1) :=
+  (pdf_integrates_to_cdf_differences 0 1 0 0.5 (-1) 3 (by norm_num)).2.2.2.1 (by norm_num) (by norm_num)
+    (by unfold gevArg; norm_num) (by unfold gevArg; norm_num)
 
 /-! ## Sampling -/
 
